@@ -85,10 +85,20 @@ def run(tier, seed):
 
     # ---- 3. builds
     ok, out = C.build_harness()
+    for _ in range(2):
+        # several checks share /verif/build; a concurrent clean-up of alt build directories can pull
+        # a directory away under a running build script — that is not a property of /repo: retry
+        if ok or "No such file or directory" not in out:
+            break
+        ok, out = C.build_harness()
     if not ok:
         res.obligation("build harness against the working tree", False, "build")
         res.broken_tie("harness build", out[-3000:])
     ok2, out2 = C.build_git_ai()
+    for _ in range(2):
+        if ok2 or "No such file or directory" not in out2:
+            break
+        ok2, out2 = C.build_git_ai()
     if not ok2:
         res.obligation("build git-ai binary from the working tree", False, "build")
         res.broken_tie("git-ai build", out2[-3000:])
